@@ -1,4 +1,4 @@
-import HeraProofs.Props.C01
+import HeraProofs.Lemmas.Arith
 import HeraProofs.Props.C04
 /-
   C03 — each pseudo-operation means what the manual says, clobbering only what it may.
